@@ -309,6 +309,9 @@ def prop_generic(sets, obs=vlib.obs_full):
 def prop_C16(ctx):
     ctx.build()
     recs = generic_sets(ctx, ['corpus', 'struct_grid', 'enum_grid', 'vfield_grid', 'comp', 'soup'], vlib.obs_class)
+    recs += ctx.run_set('odd_members', gen.odd_member_cases(ctx.rng, 4000 if ctx.tier == 'quick' else 40000), vlib.obs_class)
+    recs += ctx.run_set('flattening', gen.c03_cases(ctx.rng, 1500 if ctx.tier == 'quick' else 15000) + gen.c03_hinted_cases(ctx.rng, 800 if ctx.tier == 'quick' else 8000),
+                        vlib.obs_class)
     n = oracle_no_panic(ctx, recs)
     ctx.cov['panics_observed'] = n
     return ctx.finish()
@@ -451,9 +454,19 @@ def prop_C04(ctx):
     perm_items = []
     for r in recs + comp:
         it = r.get('item')
-        if it is None or vlib.outcome_class(r['out']) != 'ok':
+        if it is None:
             continue
         if any(isinstance(a, gen.Group) or (a.name in gen.TRAIT_NAMES and not hasattr(a, 'cp')) or a.name == 'o2o' for a in it.attrs):
+            continue
+        if vlib.outcome_class(r['out']) == 'err':
+            # one impl per (kind, fallibility, counterpart) requested: instructions are duplicates only if they request the same triple
+            exp = oracles.expected_headers(it)
+            triples = [e[:3] for e in exp]
+            if 'Ident here must be unique.' in [m for m in vlib.err_msgs(r['out']) if m] and len(set(triples)) == len(triples):
+                ctx.report(r, 'instructions requesting pairwise different (kind, fallibility, counterpart) impls are rejected as duplicates: none of the %d '
+                           'documented impls is generated' % len(exp), 'README table vs verdict', key='rejected-distinct')
+            continue
+        if vlib.outcome_class(r['out']) != 'ok':
             continue
         exp = oracles.expected_headers(it)
         act = oracles.actual_headers(r['out'])
@@ -596,6 +609,17 @@ def prop_C13(ctx):
                 pairs.append((r, t))
         total += metamorphic(ctx, 'respelled_' + mode, pairs, 'rewriting bare instructions as #[o2o(..)] (%s)' % mode,
                              'bare vs #[o2o(..)] spelling, both expanded by the implementation', 'spelling', compare='msgs')
+    # the same instruction with and without an (empty) argument list: `x` vs `x()`, bare or inside #[o2o(..)]
+    pairs = []
+    for r in recs:
+        it = r.get('item')
+        if it is None:
+            continue
+        t = gen.toggle_parens(it)
+        if t is not None and t.render() != r['text']:
+            pairs.append((r, t))
+    total += metamorphic(ctx, 'optional_parentheses', pairs, 'writing an argument-less instruction with / without an empty argument list',
+                         '`x` vs `x()` spelling, both expanded by the implementation', 'spelling', compare='msgs')
     ctx.cov['respelled_pairs_compared'] = total
     return ctx.finish()
 
@@ -1060,6 +1084,11 @@ def prop_C07(ctx):
         for key, imp in oracles.sem_impls(r['sem']) or []:
             if key is not None and key[0] in ('owned_into', 'ref_into', 'owned_into_existing', 'ref_into_existing'):
                 eff[(key[0], key[1], key[2])] = oracles.body_effects(imp, key[1])
+                if key[1]:
+                    for pname in oracles.parent_calls_without_propagation(imp):
+                        ctx.report(r, 'the fallible flavour %s does not return the error raised by the conversion of the #[parent] field `%s`: its '
+                                   'try_into_existing(..) is called without `?` (the other flavours propagate it)' % (key[0], pname),
+                                   'syn-parsed body: error propagation of parent conversions', key='parent-propagation:' + key[0])
         for cp in {k[2] for k in eff}:
             group = sorted((k, v) for k, v in eff.items() if k[2] == cp)
             if any(v is None for _, v in group):
@@ -1210,6 +1239,18 @@ def prop_C08(ctx):
             # `return expr` replaces the whole generated body: no part of the member-by-member rendering may be reached
             ctx.report(r, 'an instruction with `return expr` does not expand to the expression: the expansion panicked (%s)' % vlib.panic_payload(r['out'])[:120],
                        'catch_unwind on an input whose only body is the quick return', key='qret-panic:' + panic_key(r))
+            continue
+        if vlib.outcome_class(r['out']) == 'ok' and r['item'].meta['spec'].get('inner_attribute') and (r.get('sem') or '').startswith('(sem-parse-fail'):
+            # inner_attribute(..) goes inside the fn body - i.e. at its start, the only place where `#![..]` is an inner attribute of
+            # the fn; an output that no longer parses because of it has the attribute somewhere else
+            has_parent = any(a.name == 'parent' for f in r['item'].members for a in getattr(f, 'attrs', []))
+            qret = (r['item'].meta['spec']['tail'] or ('',))[0] == 'return'
+            toks = vlib.flatten(vlib.ok_tokens(r['out']))
+            misplaced = any(toks[i] == '#' and toks[i + 1] == '!' and i > 0 and toks[i - 1] != '{' for i in range(len(toks) - 1))
+            if misplaced:
+                ctx.report(r, 'inner_attribute(..) is not attached inside the fn body at its start: `#![..]` appears after other statements and the '
+                           'generated impl does not parse', 'position of `#!` in the implementation\'s tokens + syn::parse_str::<File>',
+                           key='qret-parent' if (qret and has_parent) else 'inner-attr-position')
             continue
         if vlib.outcome_class(r['out']) != 'ok' or not r.get('sem'):
             continue
